@@ -115,6 +115,42 @@ def run(ctx: Ctx):
                 if any(x[1] == ">" and not x[3] and x[0] == wv for x in fb) or \
                         any(x[1] == ">" and x[3] and x[2] == wv for x in fb):
                     okw = True
+    # the drain loop is entered whenever connections exist: what else its condition mentions
+    # (an abort flag) is a constant that does not end the wait before it began
+    cons_e = "stop:drain-entered"
+    ctx.inst(cons_e)
+    for w in whiles:
+        if "self.connections" not in ast.unparse(w.ast.test):
+            continue
+        inside = {id(x) for b in w.ast.body for x in ast.walk(b)}
+
+        def _ev(e):
+            if isinstance(e, ast.BoolOp):
+                vs = [_ev(v) for v in e.values]
+                if any(v is None for v in vs):
+                    return None
+                return all(vs) if isinstance(e.op, ast.And) else any(vs)
+            if isinstance(e, ast.UnaryOp) and isinstance(e.op, ast.Not):
+                v = _ev(e.operand)
+                return None if v is None else not v
+            if "self.connections" in ast.unparse(e):
+                return True            # the case of interest: connections exist
+            if isinstance(e, ast.Constant):
+                return bool(e.value)
+            if isinstance(e, ast.Name):
+                defs = [x.value for x in A.walk_no_nested(f.node)
+                        if isinstance(x, ast.Assign) and id(x) not in inside
+                        and any(isinstance(t, ast.Name) and t.id == e.id for t in x.targets)]
+                vals = {(_ev(d) if isinstance(d, ast.Constant) else None) for d in defs}
+                return vals.pop() if len(vals) == 1 else None
+            return None
+        v = _ev(w.ast.test)
+        if v is not True:
+            ctx.fail(cons_e, g.loc(w), f"with connections present the drain loop of stop() is entered "
+                     f"only if `{ast.unparse(w.ast.test)}` holds, and what it mentions besides the "
+                     f"connection table is not a constant that lets it start: connections that are "
+                     f"still flushing output (a DPA owed to the peer, a 3010 CEA) are reset instead of "
+                     f"being drained until the wait timeout")
     if not okw:
         ctx.fail(cons, f.loc(), "the wait for the connections to close is not bounded by "
                  "wait_timeout (`time.time() >= wait_until` leaving the loop)")
@@ -300,6 +336,38 @@ def run(ctx: Ctx):
                          "again - the rejected (3010) connection stays registered and stop() waits its "
                          "full timeout")
                 break
+        # ... and a message counts as done only once its bytes are in the buffer: an append that
+        # follows task_done() in the same iteration leaves a window in which the buffer is empty,
+        # nothing counts as queued, and the message is still a local of the writer thread
+        cons = "work_write_queue:task_done-after-the-append"
+        ctx.inst(cons)
+        apps = [x for x in gw.nodes if x.kind == "stmt" and any(
+            A.dotted(t) == "self._write_buffer" for t in x.stores())]
+        if not apps:
+            ctx.fail(cons, ww.loc(), "the writer never appends to _write_buffer")
+        for dn_ in dones:
+            after = gw.reach([d for l, d in dn_.succ if l not in ("exc", "raise")], blocked=heads)
+            late = [a_ for a_ in apps if a_ in after]
+            if late:
+                ctx.fail(cons, gw.loc(late[0]), "the writer appends the encoded message to the write "
+                         "buffer after task_done(): between the two the I/O loop sees an empty buffer "
+                         "and has_queued_messages False, closes a PEER_CLOSING connection, and the "
+                         "message (e.g. the DPA / the 3010 CEA) is never handed to the transport")
+                break
+        # ... and after EVERY message that has been counted as done - the ones that failed to
+        # encode included: the close condition of a CLOSING connection (buffer empty, nothing
+        # queued) became true through this task_done(), and only a wake-up makes the I/O loop
+        # evaluate it
+        cons = "work_write_queue:wake-up-after-every-task_done"
+        ctx.inst(cons)
+        for dn_ in dones:
+            after = gw.reach([d for l, d in dn_.succ if l not in ("exc", "raise")], normal_blocked=sigs)
+            if any(h in after for h in heads) or gw.exit in after:
+                ctx.fail(cons, gw.loc(dn_), "after this task_done() the writer can go for the next message "
+                         "(or end) without demand_attention(): if the message was the last one of a "
+                         "PEER_CLOSING connection (e.g. it could not be encoded) the node is never "
+                         "woken, no timer covers CLOSING, and the connection with its socket and two "
+                         "threads stays for ever / stop() waits its full timeout")
     # the interrupt site only sees the wake-ups that are actually taken from the pipe
     from .common_node import wakeup_tokens_all_handled
     wakeup_tokens_all_handled(ctx, "C18-R3b")
